@@ -185,6 +185,19 @@ func (w *World) verifyOnce(fn *ssa.Function, ct *Contract, opts VerifyOpts, cuts
 		}
 		bindResults(penv, fn, o.Results)
 		for _, en := range ct.Ensures {
+			// a postcondition tagged for other properties only is decided by those properties' checks; here it
+			// is neither checked nor assumed (assuming it would let a broken clause make the later ones vacuous)
+			if w.Prop != "" && len(en.Props) > 0 {
+				mine := false
+				for _, p := range en.Props {
+					if p == w.Prop {
+						mine = true
+					}
+				}
+				if !mine {
+					continue
+				}
+			}
 			g := penv.Bool(en.Expr)
 			e.obligeL(o.St, "post", en.Label, token.Position{}, g, en.Props)
 		}
@@ -288,7 +301,11 @@ func (e *Exec) applyContract(st *State, fr *Frame, fn *ssa.Function, ct *Contrac
 			e.havocLocation(st, env, m)
 		}
 	} else if len(fn.Params) > 0 && fn.Signature.Recv() != nil {
-		if p, ok := args[0].(*PtrVal); ok && p.Obj != 0 {
+		recv := args[0]
+		if iv, ok := recv.(*IfaceVal); ok && iv.V != nil {
+			recv = iv.V // call through an interface contract: the frame is the dynamic receiver
+		}
+		if p, ok := recv.(*PtrVal); ok && p.Obj != 0 {
 			e.havocDeep(st, p, 0, "ret."+fn.Name())
 		}
 	}
